@@ -266,13 +266,10 @@ func decodeStream(cfg hx.Config, ch *simrt.Chooser, b []byte, cuts []int, rec bo
 	}
 	var srErr error
 	if burst == -2 {
-		w.S.Spawn("suspend-resume", func() {
+		w.runTo(w.S.Spawn("suspend-resume", func() {
 			_ = w.Scr.Suspend()
 			srErr = w.Scr.Resume()
-		})
-		if st := w.S.RunUntil(nil, w.S.Now()+1); st == simrt.Budget {
-			w.stall = true
-		}
+		}))
 		w.Tty.Faults.Inc("suspend_resume")
 	}
 	w.settle()
